@@ -230,6 +230,17 @@ func runCollectAll(p *Prog, r *Report) {
 							}
 							return true
 						})
+						if miss == "" && roleOfType(info.TypeOf(rs.X)) == roleOTHER {
+							// position test on a collection that spans several files
+							ast.Inspect(ifs.Cond, func(c ast.Node) bool {
+								if sel, ok := c.(*ast.SelectorExpr); ok && (sel.Sel.Name == "Byte" || sel.Sel.Name == "Line" || sel.Sel.Name == "Column") {
+									if tv := info.TypeOf(sel.X); tv != nil && isHclPos(tv) {
+										miss = exprStr(ifs.Cond) + " (a position test: " + cmpText(rs.X) + " holds items of several files and is not ordered by byte offset)"
+									}
+								}
+								return true
+							})
+						}
 						if miss != "" {
 							r.Add("E15.collect-all", fn.Name, construct, p.Pos(s), Violated,
 								"the loop collects "+collects+" from every element but stops at the first element for which "+miss+": everything after it is dropped", true)
@@ -643,4 +654,321 @@ var siblingExceptions = map[string]string{
 	"decoder.Any.hoverConditionalExprAtPos|ConditionalExpr.TrueResult":     "reviewed divergence: see completeConditionalExprAtPos",
 	"decoder.Any.hoverConditionalExprAtPos|ConditionalExpr.FalseResult":    "reviewed divergence: see completeConditionalExprAtPos",
 	"decoder.Any.refOriginsForForExpr|ForExpr.CollExpr": "origins of a for-expression's collection are collected under 'any collection type' (list/set/tuple/map/object of anything) because the collection's type is unrelated to the result constraint; the other walkers pass the result constraint on. Reviewed: a superset constraint for origins cannot lose a reference that the others see",
+}
+
+// runZeroLenCopy — E15.copy-into-empty: copy(dst, src) copies min(len(dst), len(src)) elements;
+// a destination made with length 0 (make(T, 0, n)) receives nothing.
+func runZeroLenCopy(p *Prog, r *Report) {
+	n := 0
+	for _, fn := range p.Funcs {
+		if fn.Body == nil {
+			continue
+		}
+		info := fn.Info()
+		ast.Inspect(fn.Body, func(m ast.Node) bool {
+			if lit, ok := m.(*ast.FuncLit); ok && lit != fn.Lit {
+				return false
+			}
+			c, ok := m.(*ast.CallExpr)
+			if !ok || !isBuiltinCall(info, c, "copy") || len(c.Args) != 2 {
+				return true
+			}
+			n++
+			dst := ast.Unparen(c.Args[0])
+			construct := exprStr(c)
+			def := dst
+			if id, ok := dst.(*ast.Ident); ok {
+				if d := fn.SingleDef(info.ObjectOf(id)); d != nil {
+					def = ast.Unparen(d)
+				}
+			} else if sel, ok := dst.(*ast.SelectorExpr); ok {
+				// field of a local struct literal / assigned just before
+				pth := pathOf(info, sel)
+				ast.Inspect(fn.Body, func(k ast.Node) bool {
+					if as, ok := k.(*ast.AssignStmt); ok && len(as.Lhs) == len(as.Rhs) {
+						for i, l := range as.Lhs {
+							if pathOf(info, l) == pth && fn.Dominates(as, c) {
+								def = ast.Unparen(as.Rhs[i])
+							}
+						}
+					}
+					return true
+				})
+			}
+			if mk, ok := def.(*ast.CallExpr); ok && isBuiltinCall(info, mk, "make") && len(mk.Args) >= 2 {
+				if v, isConst := constInt(info, mk.Args[1]); isConst && v == 0 {
+					r.Add("E15.copy-into-empty", fn.Name, construct, p.Pos(c), Violated, "the destination was made with length 0 ("+exprStr(mk)+"): copy() transfers no element", true)
+					return true
+				}
+			}
+			r.Add("E15.copy-into-empty", fn.Name, construct, p.Pos(c), OK, "destination is not a zero-length slice", false)
+			return true
+		})
+	}
+	r.Counts["E15.copy-calls"] = n
+	r.ExpectMin("E15.copy-calls", n, 3)
+	r.Clauses = append(r.Clauses, "E15 no copy() into a destination made with length 0")
+}
+
+// runAsymmetricNormalisation — E15.asymmetric-normalisation: in a string comparison /
+// containment test exactly one side went through ToLower/ToUpper: the test is neither
+// case-sensitive nor case-insensitive.
+func runAsymmetricNormalisation(p *Prog, r *Report) {
+	n := 0
+	normalised := func(fn *Func, e ast.Expr, depth int) bool {
+		info := fn.Info()
+		found := false
+		var rec func(e ast.Expr, d int)
+		rec = func(e ast.Expr, d int) {
+			ast.Inspect(e, func(z ast.Node) bool {
+				if found {
+					return false
+				}
+				switch x := z.(type) {
+				case *ast.CallExpr:
+					full := calleeFull(info, x)
+					if full == "strings.ToLower" || full == "strings.ToUpper" || full == "strings.Title" || full == "bytes.ToLower" || full == "bytes.ToUpper" {
+						found = true
+					}
+				case *ast.Ident:
+					if d > 0 {
+						o := info.ObjectOf(x)
+						if v, ok := o.(*types.Var); ok && !v.IsField() {
+							for f := fn; f != nil; f = f.Parent {
+								as := f.Assignments(o)
+								for _, a := range as {
+									if s, ok := a.(*ast.AssignStmt); ok && len(s.Lhs) == len(s.Rhs) {
+										for i, l := range s.Lhs {
+											if id, ok := ast.Unparen(l).(*ast.Ident); ok && info.ObjectOf(id) == o {
+												rec(s.Rhs[i], d-1)
+											}
+										}
+									}
+								}
+								if len(as) > 0 {
+									break
+								}
+							}
+						}
+					}
+				}
+				return !found
+			})
+		}
+		rec(e, depth)
+		return found
+	}
+	for _, fn := range p.Funcs {
+		if fn.Body == nil {
+			continue
+		}
+		info := fn.Info()
+		ast.Inspect(fn.Body, func(m ast.Node) bool {
+			if lit, ok := m.(*ast.FuncLit); ok && lit != fn.Lit {
+				return false
+			}
+			var a, b ast.Expr
+			var construct string
+			switch x := m.(type) {
+			case *ast.CallExpr:
+				full := calleeFull(info, x)
+				switch full {
+				case "strings.Contains", "strings.HasPrefix", "strings.HasSuffix", "strings.Index", "strings.EqualFold", "bytes.Contains", "bytes.HasPrefix", "bytes.Equal":
+					if len(x.Args) == 2 {
+						a, b = x.Args[0], x.Args[1]
+						construct = exprStr(x)
+					}
+				}
+			case *ast.BinaryExpr:
+				if x.Op == token.EQL || x.Op == token.NEQ {
+					if bt, ok := info.TypeOf(x.X).Underlying().(*types.Basic); ok && bt.Info()&types.IsString != 0 {
+						if tv, ok := info.Types[x.Y]; !ok || tv.Value == nil {
+							if tv2, ok := info.Types[x.X]; !ok || tv2.Value == nil {
+								a, b = x.X, x.Y
+								construct = exprStr(x)
+							}
+						}
+					}
+				}
+			}
+			if a == nil {
+				return true
+			}
+			n++
+			na, nb := normalised(fn, a, 2), normalised(fn, b, 2)
+			if na != nb {
+				which := exprStr(b)
+				if na {
+					which = exprStr(a)
+				}
+				r.Add("E15.asymmetric-normalisation", fn.Name, construct, p.Pos(m), Violated,
+					"only "+which+" is case-normalised: text that differs from the other side only in case matches or fails depending on which side it is", true)
+			}
+			return true
+		})
+	}
+	r.Counts["E15.string-tests"] = n
+	r.ExpectMin("E15.string-tests", n, 20)
+	r.Clauses = append(r.Clauses, "E15 no string comparison / containment test normalises the case of only one of its operands")
+}
+
+// runParamPermutation — E14.param-position: a self-recursive call that passes one of the
+// function's own parameters unchanged passes it in that parameter's own position.
+func runParamPermutation(p *Prog, r *Report) {
+	n := 0
+	for _, fn := range p.Funcs {
+		if fn.Body == nil || fn.Lit != nil || fn.Obj == nil {
+			continue
+		}
+		sig := fn.Obj.Type().(*types.Signature)
+		pos := map[types.Object]int{}
+		for i := 0; i < sig.Params().Len(); i++ {
+			pos[sig.Params().At(i)] = i
+		}
+		if len(pos) < 2 {
+			continue
+		}
+		ord := 0
+		for _, sub := range append([]*Func{fn}, litsOf(p, fn)...) {
+			info := sub.Info()
+			ast.Inspect(sub.Body, func(m ast.Node) bool {
+				if lit, ok := m.(*ast.FuncLit); ok && lit != sub.Lit {
+					return false
+				}
+				c, ok := m.(*ast.CallExpr)
+				if !ok {
+					return true
+				}
+				if f := calleeOf(info, c); f == nil || f != fn.Obj {
+					return true
+				}
+				n++
+				ord++
+				var bad []string
+				for i, a := range c.Args {
+					id, ok := ast.Unparen(a).(*ast.Ident)
+					if !ok {
+						continue
+					}
+					o := info.ObjectOf(id)
+					if j, isParam := pos[o]; isParam && j != i && len(fn.Assignments(o)) == 0 {
+						// same type as the slot it lands in?
+						if i < sig.Params().Len() && types.Identical(sig.Params().At(i).Type(), sig.Params().At(j).Type()) {
+							bad = append(bad, fmt.Sprintf("parameter %s (position %d) is passed as %s (position %d)", id.Name, j+1, sig.Params().At(i).Name(), i+1))
+						}
+					}
+				}
+				construct := fmt.Sprintf("recursive call %s#%d", cmpText(c.Fun), ord)
+				if len(bad) > 0 {
+					r.Add("E14.param-position", fn.Name, construct, p.Pos(c), Violated, strings.Join(bad, "; ")+": the recursion continues with the roles of two same-typed parameters exchanged", true)
+				} else {
+					r.Add("E14.param-position", fn.Name, construct, p.Pos(c), OK, "own parameters are passed on in their own positions", false)
+				}
+				return true
+			})
+		}
+	}
+	r.Counts["E14.self-recursive-calls"] = n
+	r.ExpectMin("E14.self-recursive-calls", n, 15)
+	r.Clauses = append(r.Clauses, "E14 self-recursive calls pass the function's own parameters in their own positions")
+}
+
+func litsOf(p *Prog, fn *Func) []*Func {
+	var out []*Func
+	for _, f := range p.Funcs {
+		if f.Lit != nil && rootOf(f) == fn {
+			out = append(out, f)
+		}
+	}
+	return out
+}
+
+// runByteTrim — E6.rune-trim: dropping "the last character" of text by slicing off one byte
+// (x[:len(x)-1]) is only right when that byte is known to be ASCII (a dominating test
+// x[len(x)-1] == 'c'); otherwise the width of the last rune (utf8.DecodeLastRune) is needed.
+func runByteTrim(p *Prog, r *Report) {
+	n := 0
+	for _, fn := range p.Funcs {
+		if fn.Body == nil {
+			continue
+		}
+		info := fn.Info()
+		ast.Inspect(fn.Body, func(m ast.Node) bool {
+			if lit, ok := m.(*ast.FuncLit); ok && lit != fn.Lit {
+				return false
+			}
+			se, ok := m.(*ast.SliceExpr)
+			if !ok || se.High == nil || se.Low != nil && exprStr(se.Low) != "0" {
+				return true
+			}
+			t := info.TypeOf(se.X)
+			if t == nil {
+				return true
+			}
+			isText := false
+			if sl, ok := t.Underlying().(*types.Slice); ok {
+				if bt, ok := sl.Elem().Underlying().(*types.Basic); ok && bt.Kind() == types.Byte {
+					isText = true
+				}
+			}
+			if bt, ok := t.Underlying().(*types.Basic); ok && bt.Info()&types.IsString != 0 {
+				isText = true
+			}
+			if !isText {
+				return true
+			}
+			be, ok := ast.Unparen(se.High).(*ast.BinaryExpr)
+			if !ok || be.Op != token.SUB {
+				return true
+			}
+			lc, ok := ast.Unparen(be.X).(*ast.CallExpr)
+			if !ok || !isLenCall(info, lc) || exprStr(lc.Args[0]) != exprStr(se.X) {
+				return true
+			}
+			n++
+			construct := exprStr(se)
+			if v, isConst := constInt(info, be.Y); !isConst || v != 1 {
+				// a computed width: must come from utf8
+				okw := false
+				if id, ok := ast.Unparen(be.Y).(*ast.Ident); ok {
+					for _, a := range fn.Assignments(info.ObjectOf(id)) {
+						if s, ok := a.(*ast.AssignStmt); ok && len(s.Rhs) == 1 {
+							if c, ok := ast.Unparen(s.Rhs[0]).(*ast.CallExpr); ok && strings.HasPrefix(calleeFull(info, c), "unicode/utf8.") {
+								okw = true
+							}
+						}
+					}
+				}
+				if okw {
+					r.Add("E6.rune-trim", fn.Name, construct, p.Pos(se), OK, "trimmed by the decoded width of the last rune", true)
+				} else {
+					r.Add("E6.rune-trim", fn.Name, construct, p.Pos(se), OK, "trimmed by a computed width", false)
+				}
+				return true
+			}
+			// exactly one byte: needs an ASCII test of that byte
+			ascii := false
+			for _, a := range fn.GuardsAt(se).Atoms() {
+				if a.E == nil || !a.Pol {
+					continue
+				}
+				if cmp, ok := ast.Unparen(a.E).(*ast.BinaryExpr); ok && cmp.Op == token.EQL {
+					for _, side := range []ast.Expr{cmp.X, cmp.Y} {
+						if ix, ok := ast.Unparen(side).(*ast.IndexExpr); ok && exprStr(ix.X) == exprStr(se.X) && strings.Contains(exprStr(ix.Index), "len("+exprStr(se.X)+")") {
+							ascii = true
+						}
+					}
+				}
+			}
+			if ascii {
+				r.Add("E6.rune-trim", fn.Name, construct, p.Pos(se), OK, "the dropped byte was compared with an ASCII constant first", true)
+			} else {
+				r.Add("E6.rune-trim", fn.Name, construct, p.Pos(se), Violated, "drops one byte as if it were one character: when the last character is multi-byte the text ends inside a UTF-8 sequence and derived positions are off", true)
+			}
+			return true
+		})
+	}
+	r.Counts["E6.text-tail-trims"] = n
+	r.ExpectMin("E6.text-tail-trims", n, 2)
+	r.Clauses = append(r.Clauses, "E6 the last character of recovered text is dropped by its rune width, or by one byte only after that byte was compared with an ASCII constant")
 }
